@@ -454,8 +454,8 @@ theorem C14_dyn_struct_fs (d : DNode) (op : DOp) (hs : op.isBase = false) : Stru
         ⟨Or.inl ⟨G, hG, src, hmem, hname, rfl⟩, Or.inl ⟨G, hG, src, hmem, hname, rfl⟩⟩
       simp only []
       split
-      · exact h0.addFile dF _ ho
-      · exact (h0.createFolder dF).addFile dF _ ho
+      · exact (h0.deleteFile dF f).addFile dF _ ho
+      · exact ((h0.createFolder dF).deleteFile dF f).addFile dF _ ho
   case dbReplace F f sF =>
     unfold DNode.dbReplace
     split
@@ -595,6 +595,14 @@ example :
     ((exD.run [.base (.file "d" "a" .scan), .fsCreateFile "dl" "a" false, .dbReplace "d" "a" "dl"]).n.folders.map
         (fun G => (G.name, G.files.map (fun f => (f.name, f.actual, f.visible, f.deleted))))) =
       [("d", [("a", .corrupt, .corrupt, true), ("b", .good, .none, true), ("a", .good, .corrupt, false)]),
+       ("dl", [("a", .good, .none, false)])] := by
+  decide
+
+/-- `copy_file` onto a live namesake: the old file is deleted (keeps what it showed), the copy shows what its SOURCE showed -/
+example :
+    ((exD.run [.fsCreateFile "dl" "a" false, .base (.file "d" "a" .scan), .fsCopyFile "dl" "a" "d"]).n.folders.map
+        (fun G => (G.name, G.files.map (fun f => (f.name, f.actual, f.visible, f.deleted))))) =
+      [("d", [("a", .corrupt, .corrupt, true), ("b", .good, .none, true), ("a", .good, .none, false)]),
        ("dl", [("a", .good, .none, false)])] := by
   decide
 
